@@ -7,7 +7,7 @@ PROP = "C03"
 def run(tier, seed, t0):
     return _sess.run_session_check(
         PROP, tier, seed, t0,
-        families=[("content", 500, 10000), ("rpc", 100, 1000), ("listeners", 60, 600)],
+        families=[("content", 500, 10000), ("rpc", 100, 1000), ("listeners", 60, 600), ("mixed", 200, 3000)],
         mc_jobs=[("MC_Conn_chclose_q.cfg", None, None), ("MC_Conn_consumer.cfg", None, "thorough")],
         rule="1-3 channels x 1-2 consumers (+ return listeners, + basic.get answers): 1-4 messages per channel with body "
              "lengths 0/1/2/5/64/1000/5000 in random partitions into body frames; the frames of different channels are "
@@ -17,6 +17,9 @@ def run(tier, seed, t0):
              "frames or frames of two channels interleave; distinct = distinct step lists",
         nontrivial=lambda s: any(x.get("do") == "srv" and len(x["frames"]) >= 3 for x in s["steps"]),
         assumptions=_sess.COMMON_ASSUMPTIONS + [
+            "plus 'mixed' sessions: seeded interleavings of everything at once (RPCs, nowait calls, multi-frame publishes at "
+            "frame_max 4096, consumers, listeners, withheld replies, server deliveries/confirms/returns/cancels/channel closes, "
+            "transport stalls, read and write segmentation)",
             "received bodies are identified by byte-equality lookup among the bodies the broker sent (all distinct for "
             "non-empty bodies); empty bodies are identified by their delivery tag / routing key only"])
 
